@@ -429,6 +429,8 @@ type runner struct {
 	coqM  int
 	n     int
 	maxCq int
+	// all: run every entry point (CreateVP, CreateVPArray, MatchSubmissionRequirement) on the case
+	all bool
 }
 
 func (r *runner) do(kind string, c Case, withCoq bool) {
@@ -516,11 +518,11 @@ func (r *runner) do(kind string, c Case, withCoq bool) {
 	// the other public entry points of the same exchange, on a third of the cases
 	r.n++
 
-	if r.n%4 == 0 && o.Create != "other" {
+	if (r.n%4 == 0 || r.all) && o.Create != "other" {
 		r.doArray(kind, c, withCoq)
 	}
 
-	if r.n%4 == 2 {
+	if r.n%4 == 2 || r.all {
 		r.doMSR(kind, c, r.n%8 == 2, withCoq)
 	}
 }
@@ -764,6 +766,10 @@ func distOf(c Case, o *Obs) []string {
 		if x.ID == 0 {
 			d = append(d, "cred:no-id")
 		}
+
+		if x.Ctx == 2 {
+			d = append(d, "cred:second-context")
+		}
 	}
 
 	if o.Create == "vp" && len(o.Maps) < len(c.Def.Descs) {
@@ -848,6 +854,8 @@ func main() {
 	genRequirements(r, rng.Fork(1), thorough)
 	genConstraints(r, rng.Fork(2), thorough)
 	genFormats(r, rng.Fork(3), thorough)
+	genSizes(r, rng.Fork(7), thorough)
+	genContexts(r, rng.Fork(8), thorough)
 	genDisclosure(r, rng.Fork(6), thorough)
 	genRandom(r, rng.Fork(4), thorough)
 	genIterator(r, rng.Fork(5), thorough)
